@@ -1,13 +1,15 @@
 (* Extraction of the hand-written executable model (micro-correspondence). ExtrOcamlBasic only. *)
 From Coq Require Import List Arith Extraction ExtrOcamlBasic.
-From C04 Require Effects ObjMgr ArrayData Ctor KeyValue Tree Relocator Replace.
+From C04 Require Effects ObjMgr ArrayData Ctor KeyValue Tree Relocator Replace SetCount HashGrow.
 Separate Extraction
   Effects.mkS Effects.mkH Effects.hp Effects.mem Effects.alive Effects.bsize Effects.trace Effects.sched
   ObjMgr.relocate_exec ObjMgr.relocate_create ObjMgr.relocate_range ObjMgr.copy_exec ObjMgr.move_exec
   ObjMgr.creator_copy ObjMgr.creator_move
   ArrayData.array_grow ArrayData.array_addback_grow ArrayData.pv_reset_intcap ArrayData.creator_relocate
   ArrayData.rItems ArrayData.rCount ArrayData.rCap Ctor.bucket_add_inplace Ctor.array_copy_ctor Ctor.set_copy_ctor KeyValue.kv_relocate KeyValue.kv_create_copy KeyValue.kv_create_move
-  Effects.bind Effects.copy_construct Effects.destroy
+  Effects.ret Effects.bind Effects.copy_construct Effects.destroy
+  SetCount.array_remove_back SetCount.array_setcount_nogrow SetCount.array_setcount_grow
+  HashGrow.pv_add_grow HashGrow.bucket_add0
   Replace.kv_replace Replace.kv_replace_relocate
   Relocator.run_plan Relocator.grow_plan Relocator.split_root_plan Tree.node_remove
   BinNums.positive BinNums.Z BinNums.N.
